@@ -189,13 +189,7 @@ void h_read_ttl(void)
   bool touched = st._kv.touched || st._expiry.touched; \
   iora_skey LK = st._kv.touched ? st._kv.lastkey : st._expiry.lastkey; \
   bool crc_match = G_crc_called && G_crc_ret == STORED; \
-  IORA_CANARY("h_step: returns"); \
-  if (G_step == IORA_STEP_BREAK) { IORA_CANARY("h_step: break"); } \
-  if (G_step == IORA_STEP_CONTINUE) { IORA_CANARY("h_step: continue"); } \
-  if (touched && OPB == OP_S && LK.is_g) { IORA_CANARY("h_step: S applied to the ghost key"); } \
-  if (touched && OPB == OP_E && LK.is_g && st._kv.has) { IORA_CANARY("h_step: E applied to the ghost key"); } \
-  if (touched && OPB == OP_X && LK.is_g) { IORA_CANARY("h_step: X applied to the ghost key"); } \
-  if (touched && OPB == OP_D) { IORA_CANARY("h_step: D applied"); }
+  IORA_CANARY("h_step: returns");
 #define KV (st._kv)
 #define EX (st._expiry)
 #define UNCHANGED_KV (KV.has == kv_has0 && KV.val.p == kv_val0.p && KV.val.n == kv_val0.n)
